@@ -187,5 +187,27 @@ def d3(ctx, res):
                 res.violation(f, origin.node,
                               reason="write to module-level / class-level state reachable from generation: output would "
                                      "depend on earlier calls in the same process")
+    # a mutable default argument is evaluated once: it is process-wide state as soon as it is written through
+    n_def = 0
+    for f in sorted(reach, key=lambda f: f.qualname):
+        for p in f.params:
+            if p.default is None:
+                continue
+            n_def += 1
+            dv = ef._default_val(p.default, f)
+            if dv == effects.IMM:
+                res.ok(f, f"{p.name}={norm(p.default)}", reason="immutable default")
+                continue
+            written = [o for o, atoms in ef.mut[f].items()
+                       if any(isinstance(a, tuple) and a[1] is f and a[2] == p.index for a in atoms)]
+            if written and isinstance(p.default, (ast.Call, ast.List, ast.Dict, ast.Set, ast.ListComp, ast.DictComp, ast.SetComp)):
+                res.violation(f, f"{p.name}={norm(p.default)}",
+                              detail={"written_at": sorted({f"{o.func.short} :: {norm(o.node)[:80]}" for o in written})[:6]},
+                              reason="the default object is created once, when the function is defined, and is written through "
+                                     "on every call that leaves the argument out: results depend on the earlier calls of the process")
+            else:
+                res.ok(f, f"{p.name}={norm(p.default)}", reason="shared default object that is never written through this parameter"
+                       if not written else "module-level object passed by name")
+    res.stat("defaults_in_graph", n_def)
     res.stat("decorators_in_graph", n_dec)
     res.stat("global_write_origins", n_g)
